@@ -68,8 +68,10 @@ BENIGN = {
     "B10_zip_fill_copies_first": [
         sub("lena/flow/zip.py",
             "    def _fill(self, val):\n        for seq in self._sequences:\n            seq.fill(copy.deepcopy(val))\n",
+            # (the builtin zip cannot be used in this module: Zip(fields=...) binds the module-level
+            # name given by its *name* argument, "zip" by default, to a namedtuple class)
             "    def _fill(self, val):\n        copies = [copy.deepcopy(val) for _ in self._sequences]\n"
-            "        for seq, value in zip(self._sequences, copies):\n            seq.fill(value)\n")],
+            "        for ind, seq in enumerate(self._sequences):\n            seq.fill(copies[ind])\n")],
     "B11_pdftopng_local_names": [
         sub("lena/output/pdf_to_png.py",
             '                if not os.path.exists(data + "." + self._format)\\\n'
